@@ -27,6 +27,16 @@ CHECKS = {
          "Every generator output of four stated layers (single condition: 52 opcode atoms x all argument lists of length <=2/<=3 over 27 letters x terminator; all 64 message modes with type-correct and singly-corrupted commitments; 17 integer atoms through every integer-typed condition and CREATE_COIN memo shapes; spend A with every ordered pair of ~107 interaction letters alone or with a child / sibling / double-spend carrying one letter; structural defects at all 5 list positions; the 1024-announcement and 6000-spend caps) is run through the real parse_spends with both visitors and the flag subsets of {NO_UNKNOWN_CONDS, STRICT_ARGS_COUNT, COST_CONDITIONS} and through the reference model written from the rule table (DESIGN.md Appendix A); verdict, canonical summary (incl. eligibility flags under the mempool visitor) and condition cost must be equal. 14M (quick) / ~90M (thorough) evaluations, exhaustive inside the stated alphabets.",
          "trusts: the reference model mc::refcond (reviewable against Appendix A); valid public keys = the harness's own three keys; signatures are not validated here (C05); conditions interacting in groups of more than 3, messages >1025 bytes and most of the 65536 two-byte opcodes are outside the alphabet",
          "DESIGN.md#c01"),
+ "C03": ("E", "exploration",
+         "bounded-exhaustive enumeration of lock/birth condition multisets x chain-state grid against per-assertion arithmetic semantics",
+         "Every multiset of <=3 (quick) / <=4 (thorough) conditions over the 10 lock/birth kinds x 8 argument atoms (negative, 0, 1, 2, 2^32-1, 2^32, 2^64-1, 2^64) on one coin is parsed by the real parse_spends (both visitors), converted to owned conditions and checked by the real check_time_locks(nowrap) on all 576 chain states of a boundary grid; the verdict must equal the conjunction of the original assertions evaluated literally in u128 with saturation. Bundles rejected at parse time must contain an assertion that can never hold or be unsatisfiable as a conjunction (decided exactly per dimension); every multiset of <=2 on an ephemeral coin must be rejected iff it contains a relative/birth condition (tautological forms included).",
+         "trusts: the per-assertion definitions in c03.rs (after: now >= bound, before: now < bound, birth: equality, relative bound = min(confirmed+arg, max)); locks spread over several spends and the legacy wrapping mode are not covered",
+         "DESIGN.md#c03"),
+ "C04": ("E", "exploration",
+         "bounded-exhaustive enumeration of opcode cost classes x repetition x fork rules x all entry points with limit sweep at every partial-sum boundary",
+         "For every cost letter (each of the 35 known opcodes as a valid stand-alone group, all 512 two-byte opcodes over the 256 cost slots x high byte {01,ff}, 3 unknown shapes, SOFTFORK with 3 arguments) x repetition 1..2 (quick) / 1..3 (thorough) x COST_CONDITIONS on/off x 1-2 spends, the cost reported by parse_spends, run_block_generator, run_block_generator2 (byte cost and INTERNED_GENERATOR) and run_spendbundle (both) must equal harness size cost + clvmr's own execution cost + the literal cost table, with consistent bundle-wide and per-spend sub-totals; each path is re-run with the limit at 0, total-1, total, total+1 and every partial sum of its charge sequence +-1 and must succeed exactly for limits >= total with an unchanged cost.",
+         "trusts: the literal cost table and 256-slot table in mc::refcond (self-checked against the exact closed form 100*(17/16)^i), clvmr::run_program for execution cost, harness serialiser/interning count for size cost",
+         "DESIGN.md#c04"),
 }
 
 PENDING_REASON = "check not built yet in this round (planned: see DESIGN.md section for this property); not claimed until it runs"
